@@ -3,6 +3,7 @@ TARGETS = [
     ("verdrv", ["verdrv.cpp"], {}),
     ("permdrv", ["permdrv.cpp"], {}),
     ("treedrv", ["treedrv.cpp"], {"sessions": 16, "epoch_time": 5}),
+    ("orddrv", ["orddrv.cpp"], {"sessions": 16}),
     ("mapdrv", ["mapdrv.cpp"], {"sessions": 16, "epoch_time": 5}),
 ]
 BY_NAME = {t[0]: t for t in TARGETS}
